@@ -57,6 +57,34 @@ theorem keyAfter_mem (k : κ) (ops : List (Op κ α μ)) :
       · left; exact h
       · right; simpa [setupContent] using h
 
+omit [DecidableEq κ] [DecidableEq α] [DecidableEq μ] in
+/-- Operations that set up no entity leave the thread's entity key as it is. -/
+theorem keyAfter_no_setup (k : κ) (ops : List (Op κ α μ)) (h : ∀ op ∈ ops, setupContent op = none) :
+    keyAfter k ops = k := by
+  induction ops generalizing k with
+  | nil => rfl
+  | cons op l ih =>
+    have hl : ∀ o ∈ l, setupContent o = none := fun o ho => h o (List.mem_cons_of_mem _ ho)
+    cases op with
+    | setup p c => exact absurd (h _ List.mem_cons_self) (by simp [setupContent])
+    | sign a m =>
+      have hstep : keyAfter k (Op.sign a m :: l) = keyAfter k l := rfl
+      rw [hstep]; exact ih k hl
+    | verify a m sg c sk =>
+      have hstep : keyAfter k (Op.verify a m sg c sk :: l) = keyAfter k l := rfl
+      rw [hstep]; exact ih k hl
+
+omit [DecidableEq κ] [DecidableEq α] [DecidableEq μ] in
+/-- Entity churn: whatever entities the thread acted for before (any number of earlier set-ups, any keys), after a
+    set-up with content `c` followed by operations that set up nothing the thread's entity key is `c`. -/
+theorem keyAfter_last_setup (k : κ) (pre post : List (Op κ α μ)) (p : Nat) (c : κ)
+    (h : ∀ op ∈ post, setupContent op = none) :
+    keyAfter k (pre ++ .setup p c :: post) = c := by
+  have : keyAfter k (pre ++ .setup p c :: post) = keyAfter (keyAfter k (pre ++ [.setup p c])) post := by
+    unfold keyAfter
+    rw [show pre ++ Op.setup p c :: post = (pre ++ [Op.setup p c]) ++ post by simp, List.foldl_append]
+  rw [this, keyAfter_snoc, keyAfter_no_setup _ _ h]
+
 /-! ### Thread-local invariant -/
 
 /-- The operation a thread is in the middle of. -/
